@@ -496,3 +496,16 @@ Qed.
 
 Lemma combine_tax_scales_empty : forall combined, combine_tax_scales [] combined = combined.
 Proof. reflexivity. Qed.
+
+(* ------------------------------------------------------------------------- *)
+(** * Witness of finding F5                                                    *)
+(* ------------------------------------------------------------------------- *)
+
+(** combine_bracket(rate, lo) as it was before the F5 repair (no high threshold): the rate
+    of an inserted low threshold is rates[index] even when index = -1, i.e. the LAST rate.
+    Not part of the model; kept for the refutation example of props/C09.v. *)
+Definition combine_bracket_F5 (rate lo : Q) (s : scale) : scale :=
+  let s1 :=
+    if mem_thr lo s then s
+    else add_bracket lo (py_nth (rates s) (Z.of_nat (bisect_right (thresholds s) lo) - 1)) s in
+  combine_loop rate (index_of lo (thresholds s1)) (length s1 - index_of lo (thresholds s1)) s1.
